@@ -636,7 +636,7 @@ PROPS = {
                    "tabulation (glue), compared phase by phase with the model's definitions on domains of up to 8 states.",
      'technique': 'Lean 4 proof (set algebra on level arrays, chaotic iteration) + differential correspondence (result vs. lfp specification and vs. BFS edge) + '
                   'structural comparison of the finalized per-level relations with the executable model',
-     'partial': ['saturateHelper/recFire: modelled and proved in Ops/Saturation*.lean for a recFire that enters EVERY level; sat_pregen.cc's recFire jumps to MAX(|mxd level|, mdd level), which is exactly known finding F12 (levels skipped by both set and relation node are never saturated with a fully-reduced set forest)',
+     'partial': ['saturateHelper/recFire: modelled and proved in Ops/Saturation*.lean for a recFire that enters EVERY level; the recFire of sat_pregen.cc jumps to MAX(|mxd level|, mdd level), which is exactly known finding F12 (levels skipped by both set and relation node are never saturated with a fully-reduced set forest)',
                  'backward saturation (SATURATION_BACKWARD) not exercised',
                  "acceptor glue replays finalize with the model's primitives (phase-wise cross-check on <= 8 states)"]},
 }
